@@ -3,6 +3,7 @@ Breadth over every example and generated documents is by running the implementat
 parse -> calc -> marshal, three rounds, byte comparison; parse -> marshal identity; read-only operations;
 two processes with different GOMAXPROCS); the calculation core's fixpoint is tied to Calc/Symmetry.v
 (as_input) by correspondence."""
+import copy
 import subprocess
 from vlib import *
 import calcgen as cg
@@ -258,6 +259,26 @@ def run(c):
                 c.report("recalculating a calculated document changes it (%s)" % where,
                          {"document": d, "result": f, "first": r0["go_raw"], "second": r1["go_raw"],
                           "clause": "serialising the result, parsing it back and calculating again yields byte-identical JSON"}, finding_id=fid)
+    # ---- RemoveIncludedTaxes then calculate again changes nothing (findings/C17.json C17-rit-not-a-fixpoint): the witness first,
+    # then every generated document whose prices include tax; ops rit / rit2 of harness/c17.go and Run/RunC17.v
+    import c17 as _c17
+    rdocs = copy.deepcopy(_c17.RIT_CORPUS) + [d for d, r0 in zip(docs, base) if (d.get("tax") or {}).get("prices_include") and not is_err(r0["go"]) and r0["go"][0] == b"ok"]
+    r1s = cg.run3(rdocs, prefix="c17", op_="rit")
+    r2s = cg.run3(rdocs, prefix="c17", op_="rit2")
+    rshown = 0
+    for d, r1, r2 in zip(rdocs, r1s, r2s):
+        c.count("rit-fixpoint", 1, json.dumps(d, sort_keys=True))
+        if r2["go"] != r2["model"]:
+            c.report("correspondence broken: RemoveIncludedTaxes followed by a calculation in the model differs from the implementation",
+                     {"correspondence": "corr:C17:rit2", "document": d, "implementation": r2["go_raw"], "model": r2["model_raw"]}, no_input=True)
+            break
+        if is_err(r1["go"]):
+            continue        # refusals are C17's subject
+        if r2["go"] != r1["go"] and rshown < 3:
+            rshown += 1
+            c.report("the document RemoveIncludedTaxes returns changes when it is calculated again",
+                     {"document": d, "operation": "c17 rit2", "after_remove_included_taxes": r1["go_raw"], "recalculated": r2["go_raw"],
+                      "clause": "the result of RemoveIncludedTaxes is a fixpoint of calculation"})
     _ph(c, 8)
     # ---- normalisers: codes and series with runs of separators / symbols must settle in one calculation ----
     junk = []
